@@ -240,4 +240,24 @@ def stepOpC (kidsC : Rat → Entry → List (Rat × Nat)) (fuel : Nat) (hc : His
 def runOpsC (kidsC : Rat → Entry → List (Rat × Nat)) (fuel : Nat) (hc : HistC) (ops : List Op) : HistC :=
   ops.foldl (stepOpC kidsC fuel) hc
 
+/-! ### The hypotheses of the history theorems, executable
+
+`history_inv` / `history_exactly_once` assume `AddsFrom f` (every `add_callback(t, ·)` of the
+history was issued in a state `h` with `f h ≤ t`) and `NoFuelOut` (every `evolve_until` returned).
+These walk the history and decide them (`addsFromB_iff`, `noFuelOutB_iff`); the driver prints them
+with `hist` and the harness compares them with its own classification of the real history, which
+gates the oracle's order-across-calls and clock-ahead clauses. -/
+
+def addsFromB (f : Hist → Rat) (kids : Entry → List (Rat × Nat)) (fuel : Nat) : Hist → List Op → Bool
+  | _, [] => true
+  | h, .add t id :: ops => decide (f h ≤ t) && addsFromB f kids fuel (stepOp kids fuel h (.add t id)) ops
+  | h, .evolve T :: ops => addsFromB f kids fuel (stepOp kids fuel h (.evolve T)) ops
+
+def noFuelOutB (kids : Entry → List (Rat × Nat)) (fuel : Nat) : Hist → List Op → Bool
+  | _, [] => true
+  | h, .add t id :: ops => noFuelOutB kids fuel (stepOp kids fuel h (.add t id)) ops
+  | h, .evolve T :: ops =>
+    decide ((evolveUntil kids fuel h.s T).status ≠ .outOfFuel) &&
+      noFuelOutB kids fuel (stepOp kids fuel h (.evolve T)) ops
+
 end HcipyVerif.Scheduler
